@@ -3,6 +3,7 @@ package main
 // Translation of contract expressions (Go syntax) into terms.
 
 import (
+	"os"
 	"fmt"
 	"go/ast"
 	"go/constant"
@@ -241,6 +242,49 @@ func (e *SpecEnv) eval(ex ast.Expr) (Value, error) {
 }
 
 func (e *SpecEnv) ident(name string) (Value, error) {
+	v, err := e.ident0(name)
+	if os.Getenv("GOVC_DEBUG_IDENT") == name {
+		fmt.Fprintf(os.Stderr, "ident %s -> %v (%T) err=%v\n", name, v, v, err)
+	}
+	return v, err
+}
+
+// singleAssignedValue: see the comment at its call.
+func (e *SpecEnv) singleAssignedValue(name string, at *ssa.BasicBlock) ssa.Value {
+	var val ssa.Value
+	for _, b := range e.frame.fn.Blocks {
+		for _, ins := range b.Instrs {
+			dr, ok := ins.(*ssa.DebugRef)
+			if !ok || dr.IsAddr {
+				continue
+			}
+			id, ok := dr.Expr.(*ast.Ident)
+			if !ok || id.Name != name {
+				continue
+			}
+			if _, isConst := dr.X.(*ssa.Const); isConst {
+				continue
+			}
+			if val != nil && val != dr.X {
+				return nil // assigned more than once
+			}
+			val = dr.X
+		}
+	}
+	if val == nil {
+		return nil
+	}
+	in, ok := val.(ssa.Instruction)
+	if !ok || in.Block() == nil || !in.Block().Dominates(at) || in.Block() == at {
+		return nil
+	}
+	if _, ok := e.frame.env[val]; !ok {
+		return nil
+	}
+	return val
+}
+
+func (e *SpecEnv) ident0(name string) (Value, error) {
 	if b, ok := e.bound[name]; ok {
 		return b, nil
 	}
@@ -386,6 +430,13 @@ func (e *SpecEnv) ident(name string) (Value, error) {
 			}
 			if best != nil {
 				if c, ok := best.(*ssa.Const); ok {
+					// `x := T{}` is recorded as "x is <zero value>" at the declaration and the value it is
+					// given right away only shows at later uses: if every use of the same variable -- anywhere in
+					// the function -- names one and the same value and that value is defined before the point
+					// of evaluation, that value is what the variable holds (it is never assigned again)
+					if alt := e.singleAssignedValue(name, at); alt != nil {
+						return e.frame.env[alt], nil
+					}
 					return e.x.constVal(c), nil
 				}
 				return e.frame.env[best], nil
@@ -1333,6 +1384,24 @@ func (e *SpecEnv) goTypeOf(ex ast.Expr) types.Type {
 			for _, p := range e.fn.FreeVars {
 				if p.Name() == n.Name {
 					return p.Type()
+				}
+			}
+			// a named local of the function (its type is the same wherever it is in scope under that name;
+			// if two locals of different types share the name the first one found decides)
+			if e.frame != nil && e.frame.fn != nil {
+				for _, b := range e.frame.fn.Blocks {
+					for _, ins := range b.Instrs {
+						switch in := ins.(type) {
+						case *ssa.Alloc:
+							if in.Comment == n.Name {
+								return in.Type().(*types.Pointer).Elem()
+							}
+						case *ssa.DebugRef:
+							if id, ok := in.Expr.(*ast.Ident); ok && id.Name == n.Name && !in.IsAddr {
+								return in.X.Type()
+							}
+						}
+					}
 				}
 			}
 			// package-level variable
